@@ -143,7 +143,8 @@ namespace nmtools::index
         } else if constexpr (meta::is_index_array_v<axis_t>) {
             auto axis_dim = len(axis);
             for (size_t a_i=0; a_i<axis_dim; a_i++) {
-                auto i = at(axis,a_i);
+                // NOTE: built-in signed index: a negative axis counts from the end whatever integer type carries it
+                auto i = (nm_index_t)at(axis,a_i);
                 at(result,i) = at(result,i) + at(indices,a_i+src_dim);
             }
         } else if constexpr (meta::is_num_v<axis_t>) {
@@ -151,7 +152,7 @@ namespace nmtools::index
             auto m_axis = nmtools_array{axis};
             auto axis_dim = len(m_axis);
             for (size_t a_i=0; a_i<axis_dim; a_i++) {
-                auto i = at(m_axis,a_i);
+                auto i = (nm_index_t)at(m_axis,a_i);
                 at(result,i) = at(result,i) + at(indices,a_i+src_dim);
             }
         }
